@@ -736,4 +736,169 @@ theorem relabelOne_proof (sec : List Rec) (vs : List (GKey × GV)) (i : Nat) (r 
     · simp only at h; subst h; exact ⟨idx, hl⟩
   · exact absurd h h0
 
+/-! ### where a panic comes from -/
+
+theorem fetchDs_abort (sub : Query → Res) (zone : DName) (w : String) (h : fetchDs sub zone = .abort w) :
+    sub ⟨zone, tDS⟩ = .abort w := by
+  unfold fetchDs at h
+  split at h
+  · rename_i w' hw; injection h with h; exact h ▸ hw
+  · simp only at h
+    split at h
+    · split at h
+      · simp at h
+      · split at h <;> simp at h
+    · split at h <;> simp at h
+  · simp at h
+
+theorem findZone_error (env : Env) (n : DName) (w : String) (h : findZone env n = .error (some w)) :
+    w = "missing" := by
+  induction n with
+  | nil => simp [findZone] at h
+  | cons l rest ih =>
+    unfold findZone at h
+    split at h
+    · split at h
+      · simp at h
+      · exact ih h
+    · exact ih h
+    · simp at h
+    · injection h with h; injection h with h; exact h.symm
+
+theorem findDs_abort (env : Env) (sub : Query → Res) (n : DName) (w : String) (h : findDs env sub n = .abort w) :
+    w = "missing" ∨ ∃ q', sub q' = .abort w := by
+  unfold findDs at h
+  split at h
+  · simp at h
+  · rename_i w' hz
+    injection h with h
+    subst h
+    exact Or.inl (findZone_error _ _ _ hz)
+  · split at h
+    · simp at h
+    · simp at h
+    · rename_i w' hf
+      injection h with h
+      subst h
+      exact Or.inr ⟨_, fetchDs_abort _ _ _ hf⟩
+
+theorem selectOk_abort (env : Env) (sub : Query → Res) (gid : GroupId) (cands : List (Rec × Nat)) (w : String)
+    (h : selectOk env sub gid cands = .abort w) : ∃ q', sub q' = .abort w := by
+  induction cands with
+  | nil => simp [selectOk] at h
+  | cons c rest ih =>
+    obtain ⟨s, i⟩ := c
+    unfold selectOk at h
+    split at h
+    · rename_i w' hw; injection h with h; exact ⟨_, h ▸ hw⟩
+    · split at h <;> simp at h
+    · exact ih h
+
+theorem verifyDefaultRrset_abort (env : Env) (sub : Query → Res) (q : Query) (gid : GroupId) (sigs : List Rec)
+    (w : String) (h : verifyDefaultRrset env sub q gid sigs = .abort w) :
+    w = "missing" ∨ ∃ q', sub q' = .abort w := by
+  unfold verifyDefaultRrset at h
+  split at h
+  · split at h
+    · dsimp only at h
+      split at h
+      · rename_i w' hf
+        injection h with h
+        subst h
+        exact findDs_abort _ _ _ _ hf
+      · simp at h
+      · simp at h
+    · simp at h
+  · exact Or.inr (selectOk_abort _ _ _ _ _ h)
+
+theorem verifyDnskeyRrset_abort (env : Env) (sub : Query → Res) (gid : GroupId) (recs sigs : List Rec)
+    (w : String) (h : verifyDnskeyRrset env sub gid recs sigs = .abort w) :
+    (∃ q', sub q' = .abort w) ∨ recs = [] := by
+  unfold verifyDnskeyRrset at h
+  dsimp only at h
+  split at h
+  · rename_i w' hf
+    injection h with h
+    subst h
+    split at hf
+    · exact Or.inl ⟨_, fetchDs_abort _ _ _ hf⟩
+    · simp at hf
+  · simp at h
+  · split at h
+    · simp at h
+    · split at h
+      · simp at h
+      · split at h
+        · split at h
+          · simp at h
+          · rename_i hlast
+            right
+            simp only [keyProofs, List.getLast?_eq_none_iff, List.map_eq_nil_iff] at hlast
+            exact hlast
+        · simp at h
+
+/-- an RRset key of a section comes from one of its records -/
+theorem mem_groupKeys {sec : List Rec} {k : GKey} (h : k ∈ groupKeys sec) : ∃ x ∈ sec, x.gkey = k := by
+  unfold groupKeys at h
+  rw [List.mem_eraseDups] at h
+  simpa using h
+
+theorem mem_verdicts {env : Env} {sub : Query → Res} {d : Nat} {q : Query} {qid secNo : Nat} {sec : List Rec}
+    {kv : GKey × GV} (h : kv ∈ verdicts env sub d q qid secNo sec) :
+    kv.1 ∈ groupKeys sec ∧ kv.2 = verifyGroup env sub q qid secNo sec kv.1 := by
+  unfold verdicts at h
+  obtain ⟨k, hk, hf⟩ := List.mem_filterMap.mp h
+  split at hf
+  · simp at hf
+  · injection hf with hf
+    subst hf
+    exact ⟨hk, rfl⟩
+
+/-- a DNSKEY RRset key with no DNSKEY record in the section comes from an orphan RRSIG -/
+theorem orphan_of_empty_group {sec : List Rec} {k : GKey} (hk : k ∈ groupKeys sec) (ht : k.2 = tDNSKEY)
+    (he : groupRecs sec k = []) : orphanDnskeyRrsigIn sec = true := by
+  obtain ⟨x, hx, hxk⟩ := mem_groupKeys hk
+  have hsig : x.isSig = true := by
+    cases hs : x.isSig with
+    | true => rfl
+    | false =>
+      exfalso
+      have : x ∈ groupRecs sec k := by
+        unfold groupRecs
+        simp [hx, hs, hxk]
+      rw [he] at this
+      simp at this
+  unfold orphanDnskeyRrsigIn
+  simp only [List.any_eq_true, Bool.and_eq_true, beq_iff_eq, Bool.not_eq_true', List.any_eq_false, not_and]
+  refine ⟨x, hx, ⟨hsig, ?_⟩, ?_⟩
+  · have : x.gkey.2 = k.2 := by rw [hxk]
+    simpa [Rec.gkey, Rec.gtype, hsig, ht] using this
+  · intro y hy hyt hyn
+    have hys : y.isSig = false := by simp [Rec.isSig, hyt, tDNSKEY, tRRSIG]
+    have : y ∈ groupRecs sec k := by
+      unfold groupRecs
+      have hk1 : x.gkey.1 = k.1 := by rw [hxk]
+      have hyk : y.gkey = k := by
+        rw [gkey_of_not_sig hys]
+        apply Prod.ext
+        · simpa [Rec.gkey, hyn] using hk1
+        · simp [hyt, ht]
+      simp [hy, hys, hyk]
+    rw [he] at this
+    simp at this
+
+theorem firstAbort_panic {vs : List (GKey × GV)} (h : firstAbort vs = some "panic") :
+    ∃ kv ∈ vs, kv.2 = .abort "panic" := by
+  unfold firstAbort at h
+  split at h
+  · rename_i hany
+    simp only [List.any_eq_true, beq_iff_eq] at hany
+    exact hany
+  · obtain ⟨kv, hkv, hf⟩ := List.exists_of_findSome?_eq_some h
+    split at hf
+    · rename_i w hw
+      injection hf with hf
+      exact ⟨kv, hkv, hf ▸ hw⟩
+    · simp at hf
+
 end HickoryVerif.Chain
